@@ -55,13 +55,13 @@ impl Monitor for C18 {
 		"C18"
 	}
 	fn rule(&self) -> String {
-		"C01's replay space (versions/ports writable to .slpp) x compression. Every archive peppi::write produces is parsed by the harness's own tar reader. Oracle: bytes 0..10 are 'peppi.json'; entry names in order = peppi.json, metadata.json, start.json, start.raw, [end.json, end.raw iff the game has an end], [gecko_codes.raw iff gecko codes], frames.arrow last (required when rows > 0; with zero rows either choice is accepted); every *.json entry parses as JSON (own parser) and is byte-equal to serde's rendering of what peppi::read reconstructs from the archive; start.raw/end.raw equal the original blocks; writing the same game twice gives identical bytes, also when a write into a sink that fails after k bytes (5 positions) happened in between on the same thread (the failure must surface as Err). Unknown entries (random sizes; ordinary names, sub-directory names, directory entries such as './', a non-UTF-8 name, a name differing only in case; written with the harness's tar writer) inserted at EVERY position before frames.arrow must not change the game read. Format-version gate: peppi.json rewritten with version triples on both sides of 2.0.0 (quick: boundary neighbourhood + random; thorough adds all (major,minor,0) and random triples): < 2.0.0 must be rejected, >= 2.0.0 accepted, with the reader's skip_frames option off and on. distinct = workload classes x compression + entry-order shapes + insertion positions + version sides.".into()
+		"C01's replay space (versions/ports writable to .slpp) x compression. Every archive peppi::write produces is parsed by the harness's own tar reader. Oracle: bytes 0..10 are 'peppi.json'; entry names in order = peppi.json, metadata.json, start.json, start.raw, [end.json, end.raw iff the game has an end], [gecko_codes.raw iff gecko codes], frames.arrow last (required when rows > 0; with zero rows either choice is accepted); every *.json entry parses as JSON (own parser) and is byte-equal to serde's rendering of what peppi::read reconstructs from the archive; start.raw/end.raw equal the original blocks; writing the same game twice gives identical bytes - back to back, and again >= 1.3 s later from a child process that runs with SOURCE_DATE_EPOCH, TZ, LC_ALL and LANG set (whose archive must also read back) - also when a write into a sink that fails after k bytes (5 positions) happened in between on the same thread (the failure must surface as Err). Unknown entries (random sizes; ordinary names, sub-directory names, directory entries such as './', a non-UTF-8 name, a name differing only in case, names that merely end like a known entry (old_peppi.json, restart.raw, ...), pax global header / volume label / link members; written with the harness's tar writer) inserted at EVERY position before frames.arrow must not change the game read. Format-version gate: peppi.json rewritten with version triples on both sides of 2.0.0 (quick: boundary neighbourhood + random; thorough adds all (major,minor,0) and random triples): < 2.0.0 must be rejected, >= 2.0.0 accepted, with the reader's skip_frames option off and on. distinct = workload classes x compression + entry-order shapes + insertion positions + version sides.".into()
 	}
 	fn assumptions(&self) -> Vec<String> {
 		vec!["versions 3.0-3.6 and empty port sets are skipped (peppi::write panics there: known finding under C02/C14)".into()]
 	}
 	fn n_cases(&self, ctx: &Ctx) -> usize {
-		self.n_main(ctx.tier) + ctx.tier.pick(8, 64)
+		self.n_main(ctx.tier) + ctx.tier.pick(8, 64) + ctx.tier.pick(3, 12)
 	}
 	fn min_classes(&self, tier: Tier) -> usize {
 		tier.pick(60, 100)
@@ -69,6 +69,9 @@ impl Monitor for C18 {
 	fn run(&self, ctx: &Ctx, idx: usize) -> CaseOut {
 		let mut out = CaseOut::default();
 		let nm = self.n_main(ctx.tier);
+		if idx >= nm + ctx.tier.pick(8, 64) {
+			return self.across_time_and_processes(idx - nm - ctx.tier.pick(8, 64));
+		}
 		if idx >= nm {
 			return self.version_gate(ctx, idx - nm);
 		}
@@ -214,10 +217,12 @@ impl Monitor for C18 {
 				let n = *rng.pick(&[0usize, 1, 511, 512, 513, 2000]);
 				// ordinary names, names in sub-directories, directory entries ("./" as `tar -C dir .`
 				// emits), names that are not UTF-8, and names that merely resemble known ones
-				let names: [(&[u8], u8); 10] = [(b"unknown.bin", b'0'), (b"notes.txt", b'0'), (b"frames.arrow.bak", b'0'), (b"zz/extra.json", b'0'), (b"start.raw.old", b'0'), (b"./", b'5'), (b"caf\xe9.txt", b'0'), (b"extra/", b'5'), (b".", b'5'), (b"PEPPI.JSON", b'0')];
+				// ... names that merely END like a known entry, and non-file members (pax global header,
+				// GNU volume label, hard/symbolic link) as other tar producers emit them
+				let names: [(&[u8], u8); 19] = [(b"unknown.bin", b'0'), (b"notes.txt", b'0'), (b"frames.arrow.bak", b'0'), (b"zz/extra.json", b'0'), (b"start.raw.old", b'0'), (b"./", b'5'), (b"caf\xe9.txt", b'0'), (b"extra/", b'5'), (b".", b'5'), (b"PEPPI.JSON", b'0'), (b"old_peppi.json", b'0'), (b"restart.raw", b'0'), (b"tournament_metadata.json", b'0'), (b"custom_gecko_codes.raw", b'0'), (b"legend.raw", b'0'), (b"pax_global_header", b'g'), (b"volume-label", b'V'), (b"link-to-start", b'1'), (b"symlink", b'2')];
 				let (name_bytes, flag) = *rng.pick(&names);
 				let name = String::from_utf8_lossy(name_bytes).to_string();
-				let n = if flag == b'5' { 0 } else { n };
+				let n = if flag == b'5' || flag == b'V' || flag == b'1' || flag == b'2' { 0 } else if flag == b'g' { 0 } else { n };
 				let data = rng.bytes(n);
 				es.insert(pos, tarx::Entry { name: name.clone(), data: data.clone(), header_at: 0, header: tarx::header_for_bytes(name_bytes, n, flag) });
 				let arch = tarx::write(&es);
@@ -243,6 +248,54 @@ impl Monitor for C18 {
 }
 
 impl C18 {
+	/// Determinism across wall-clock time, processes and environment variables: the same game
+	/// written now in this process, and >= 1.2 s later in a child process that runs with
+	/// SOURCE_DATE_EPOCH / TZ / LC_ALL / LANG set, must give identical bytes, and the child's
+	/// archive must read back as the same game.
+	fn across_time_and_processes(&self, k: usize) -> CaseOut {
+		let mut out = CaseOut::default();
+		let seeds = super::c06::seeds();
+		// seeds with and without metadata (index % 4 == 3 has none), writable to .slpp
+		let order = [3usize, 0, 7, 9, 4, 1, 2, 8, 11, 10, 6, 5];
+		let si = order[k % order.len()];
+		let seed = &seeds[si];
+		let comp = Comp::ALL[k % 3];
+		let Ok(g) = common::slp_read(&seed.bytes, false, true) else { return out };
+		let Ok(a) = common::slpp_write(g, comp) else {
+			out.count("skipped_known_finding_inputs", 1);
+			return out;
+		};
+		std::thread::sleep(std::time::Duration::from_millis(1300));
+		let dir = crate::driver::verif_root().join("work").join("C18");
+		let _ = std::fs::create_dir_all(&dir);
+		let path = dir.join(format!("child-{}-{}.slpp", std::process::id(), k));
+		let st = std::process::Command::new(std::env::current_exe().expect("exe"))
+			.args(["write-slpp", &si.to_string(), comp.name(), path.to_str().unwrap()])
+			.env("SOURCE_DATE_EPOCH", "1700000000")
+			.env("TZ", "Asia/Tokyo")
+			.env("LC_ALL", "ja_JP.UTF-8")
+			.env("LANG", "ja_JP.UTF-8")
+			.status();
+		out.evals = 1;
+		out.class(format!("across-time-and-processes|metadata={}|comp={}", seed.model.metadata.is_some(), comp.name()));
+		match (st, std::fs::read(&path)) {
+			(Ok(s), Ok(b)) if s.success() => {
+				if b != a {
+					out.violate("write-depends-on-time-process-or-environment", format!("[{}] comp={}: the archive written 1.3 s later by a child process (SOURCE_DATE_EPOCH/TZ/LC_ALL set) differs: {}", seed.name, comp.name(), common::first_diff(&a, &b)), Some(&seed.bytes));
+				}
+				match common::slpp_read(&b, false).and_then(|g2| common::slp_write(&g2)) {
+					Ok(w) if w == seed.bytes => out.count("child_archive_reads_back", 1),
+					Ok(_) => out.violate("child-archive-reads-differently", format!("[{}]: archive written by the child process reads back as a different game", seed.name), Some(&b)),
+					Err(f) => out.violate(format!("child-archive-unreadable;{}", f.sig()), format!("[{}]: archive written by the child process (SOURCE_DATE_EPOCH set) cannot be read: {}", seed.name, f.text()), Some(&b)),
+				}
+			}
+			(st, _) => out.inconclusive.push(format!("child writer did not produce an archive: {:?}", st.map(|s| s.code()))),
+		}
+		let _ = std::fs::remove_file(&path);
+		out.sample = Some(json!({"case": "across-time-and-processes", "seed": seed.name, "comp": comp.name(), "archive_bytes": a.len()}));
+		out
+	}
+
 	fn version_gate(&self, ctx: &Ctx, k: usize) -> CaseOut {
 		let mut out = CaseOut::default();
 		let mut rng = Rng::derive(ctx.seed, 0x18_0000 + k as u64);
